@@ -578,3 +578,7 @@ PROPS["C02"]["outside"] = "crash images as executions, the worker's final-flush 
 PROPS["C11"]["level_text"] += (" The sweeper's reservoir-sampling step (one closure call, arbitrary captured state, arbitrary random draw): a record without expiry is never sampled or counted; "
                                "a candidate is appended only below sample_size, as (this key, this record); a replacement uses the drawn index only when it is below sample_size, which is then inside the vector.")
 PROPS["C11"]["functions"] += ["src/core/ttl_sweep.rs::sample_ttl_entries"]
+PROPS["C14"]["level_text"] += (" Index agreement (E2, 11 hash-table mutation sites, every path / one arbitrary loop iteration): a new hash entry comes with exactly one ordered-index insert, a replaced entry "
+                               "with exactly one slot republication, a removed entry with exactly one ordered-index removal, and no ordered-index mutation happens without its hash-table counterpart.")
+PROPS["C14"]["functions"] += ["src/core/store/internal.rs::update_record_with_ttl", "src/core/store/atomic.rs::replace_record_if_current", "src/core/store/operations.rs::delete_with_timestamp",
+                              "src/core/store/internal.rs::retire_expired_if_current", "src/core/ttl_sweep.rs::sample_and_expire_batch", "src/core/store/ttl.rs::update_ttl"]
